@@ -194,7 +194,12 @@ func c19NoRecover(c *vlib.Ctx) {
 				s.one(t, b, hows[i])
 			}
 			c.Count("structural_variants", len(vs))
-			if si < c.Pick(6, 60) {
+			// the heavy tiers take the first three seeds and then seeds spread evenly over the list (fixtures of one
+			// protocol come in file order: hello, description, request, update, ... - the later message kinds count too)
+			heavyN := c.Pick(16, 60)
+			nSeeds := min(len(cp.Seeds[t]), c.Pick(40, 400))
+			stride := max(1, (nSeeds-3)/max(1, heavyN-3))
+			if si < 3 || ((si-3)%stride == 0 && (si-3)/stride < heavyN-3) {
 				sh := cp.Shrinks(seed, c.Pick(200, 1200))
 				for _, b := range sh {
 					s.one(t, b, "shrink-region")
@@ -205,6 +210,11 @@ func c19NoRecover(c *vlib.Ctx) {
 					s.one(t, b, "byte-sweep")
 				}
 				c.Count("byte_sweep_variants", len(sw))
+				sr := cp.ByteSweepRel(seed, c.Pick(200, 1500))
+				for _, b := range sr {
+					s.one(t, b, "byte-sweep-relative")
+				}
+				c.Count("byte_sweep_relative_variants", len(sr))
 				ws := cp.WordSweep(seed, c.Pick(200, 1500))
 				for _, b := range ws {
 					s.one(t, b, "word-sweep")
